@@ -79,10 +79,10 @@ def h_optim_helper(ctx, n):
 # ---------------------------------------------------------------------------
 # C06.2 planner lemma
 
-def h_mixed_planner(ctx, n, smax=None):
+def h_mixed_planner(ctx, n, smax=None, smin=None):
     from checkpoint_schedules.mixed import mixed_step_memoization, optimal_steps_mixed
     from checkpoint_schedules.schedule import StepType
-    s = ctx.int("s", min(1, n - 1), smax)
+    s = ctx.int("s", min(1, n - 1) if smin is None else smin, smax)
     try:
         kind, i, c = mixed_step_memoization(n, s)
         total = optimal_steps_mixed(n, s)
@@ -291,7 +291,7 @@ def _same(ctx, x, y):
     return r
 
 
-def h_fin(ctx, inst, L, post=4):
+def h_fin(ctx, inst, L, post=4, float_k=False):
     """A history of L operations next() / finalize(k) with unbounded symbolic k,
     judged against oracles.fin_spec; rejected calls must leave no trace (twin
     object driven by the same history without the rejected calls)."""
@@ -326,7 +326,11 @@ def h_fin(ctx, inst, L, post=4):
             if not state["no_more_next"]:
                 step("next", j)
             continue
-        k = ctx.int("k%d" % j, None, None)
+        if float_k and ctx.bool("kf%d" % j):
+            # a float equal to an integer (what a caller computing n arithmetically may pass)
+            k = ctx.choice("kv%d" % j, [0.0, 1.0, 2.0, 3.0, 5.0, float(2 ** 63), float(3 * 2 ** 62)])
+        else:
+            k = ctx.int("k%d" % j, None, None)
         told, mx = A.n, A.max_n
         exp, exp_mx, exp_n = oracles.fin_spec(told, mx, k)
         try:
